@@ -187,10 +187,10 @@ namespace pika {
     static void resume_thread(threads::detail::thread_id_ref_type const& id,
         std::shared_ptr<std::atomic<bool>> const& done)
     {
-#if defined(PIKA_VERIF)
-        PIKA_VERIF_POINT(1305, id.noref().get());    // exit callback of a join runs (target side, unlocked)
-#endif
         done->store(true, std::memory_order_release);
+#if defined(PIKA_VERIF)
+        PIKA_VERIF_POINT(1305, id.noref().get());    // completion flag set, joiner not yet resumed
+#endif
         threads::detail::set_thread_state(
             id.noref(), threads::detail::thread_schedule_state::pending);
     }
@@ -232,11 +232,17 @@ namespace pika {
 #endif
             while (!done->load(std::memory_order_acquire))
             {
+#if defined(PIKA_VERIF)
+                PIKA_VERIF_POINT(1306, this_id.get(), 0);    // flag read: not set
+#endif
                 this_thread::suspend(
                     threads::detail::thread_schedule_state::suspended, "thread::join");
+#if defined(PIKA_VERIF)
+                PIKA_VERIF_POINT(1303, this_id.get());    // suspension returned
+#endif
             }
 #if defined(PIKA_VERIF)
-            PIKA_VERIF_POINT(1303, this_id.get());    // suspension returned
+            PIKA_VERIF_POINT(1306, this_id.get(), 1);    // flag read: set
 #endif
         }
 #if defined(PIKA_VERIF)
